@@ -6,6 +6,7 @@ from .. import replay as rp
 from .. import oracles as O
 from .setops import fnr, built
 
+from ..validate import validation_group
 BOUNDS = {'quick': {'alternatives': '1..2', 'identifier lists of the inputs': '<= 1 (the result may carry one more)', 'components': 'full u64 <= MAX_SAFE_INTEGER', 'mode': 'concrete order'},
           'thorough': {'alternatives': '1..3', 'identifier lists of the inputs': '<= 2', 'components': 'same', 'mode': 'concrete order'}}
 OUTSIDE = ['ranges with more alternatives / longer identifier lists than the bound', 'probe versions v with longer identifier lists than the bound + 1']
@@ -16,6 +17,7 @@ def groups(tier):
     K = 2 if tier == 'quick' else 3
     L = 1 if tier == 'quick' else 2
     gs = [{'name': 'min-K%d-L%d' % (k, L if k < 3 else 1), 'fn': min_group, 'args': {'k': k, 'L': L if k < 3 else 1}} for k in range(1, K + 1)]
+    gs.append(validation_group(('min_version',), tier))
     return gs
 
 
